@@ -751,6 +751,51 @@ def fresh_point(kex, old):
         serialization.Encoding.X962, serialization.PublicFormat.UncompressedPoint)
 
 
+CURVE_HASH = {"ecdsa-sha2-nistp256": "sha256", "ecdsa-sha2-nistp384": "sha384", "ecdsa-sha2-nistp521": "sha512"}
+CURVE_KIND = {"ecdsa-sha2-nistp256": "ecdsa256", "ecdsa-sha2-nistp384": "ecdsa384", "ecdsa-sha2-nistp521": "ecdsa521"}
+
+
+def e2e_rogue_key_type(ctx, kex, negotiated, shown, label, hash_name):
+    """a rogue server: `negotiated` is agreed, the key SHOWN is `shown` (an ECDSA curve name or 'ssh-ed25519'), the
+    signature is made by that key with `hash_name` and LABELLED `label`.  The client may complete only if the key
+    shown is of the negotiated type and the signature is a valid signature of that key per its own algorithm."""
+    import copy
+    from paramiko.message import Message
+
+    legit = L.host_key(CURVE_KIND[negotiated])
+    real = L.host_key(CURVE_KIND[shown]) if shown in CURVE_KIND else L.host_key("ed25519")
+    rogue = copy.copy(real)
+    if shown in CURVE_KIND:
+        rogue.sign_ssh_data = lambda data, algorithm=None: Message(s_(label.encode()) + s_(L.ecdsa_body(real, data, hash_name)))
+    else:
+        def sign(data, algorithm=None):
+            m = real.sign_ssh_data(data)
+            m.rewind()
+            m.get_text()
+            return Message(s_(label.encode()) + s_(m.get_binary()))
+        rogue.sign_ssh_data = sign
+    e = L.E2E(kex, legit, key_algo=negotiated)
+    e.ts.server_key_dict[negotiated] = rogue
+    case = {"kex": kex, "negotiated": negotiated, "key_shown": shown, "signature_label": label, "signature_hash": hash_name}
+    try:
+        err = e.handshake(timeout=60)
+        honest = shown == negotiated and label == negotiated and hash_name == CURVE_HASH[negotiated]
+        ctx.case(("e2e-rogue-key-type", kex, negotiated, shown, label, hash_name), not honest)
+        ctx.dist("e2e-rogue-key-type:%s:%s" % ("honest" if honest else "shown-" + ("same" if shown == negotiated else "other"),
+                                               "aborted" if err else "completed"))
+        if honest:
+            if err is not None:
+                ctx.disagree("e2e-honest-ecdsa-refused", case, "completes", repr(err))
+            return
+        if err is None or 21 in e.mitm.seen["c2s"]:
+            got = e.tc.get_remote_server_key() if err is None else None
+            ctx.fail("host-key-of-another-type-accepted:" + ("other-key" if shown != negotiated else "relabelled-signature"), case,
+                     "client completed with host_key_type=%r, key shown %r, signature labelled %r made with %s"
+                     % (e.tc.host_key_type, got.get_name() if got is not None else None, label, hash_name))
+    finally:
+        e.close()
+
+
 def end_to_end(ctx):
     rng = ctx.rng
     if ctx.thorough:
@@ -803,6 +848,26 @@ def end_to_end(ctx):
                     + ("empty-hostkey",))
     for kex, kind, algo, f in plan:
         e2e_mitm(ctx, kex, kind, algo, f, rng)
+    # a key of ANOTHER type than negotiated, its signature labelled with the negotiated name (and the converses)
+    names = list(CURVE_HASH)
+    kexes = ["c25519", "nistp256", "group14-256", "gex256", "group16", "nistp384", "group1", "nistp521", "gex", "group14"]
+    rogue = []
+    for X in names:
+        for Y in names:
+            if X == Y:
+                continue
+            rogue.append((X, Y, X, CURVE_HASH[X]))      # label and hash as negotiated, key of another curve
+            rogue.append((X, Y, X, CURVE_HASH[Y]))      # label as negotiated, the key's own hash
+            if ctx.thorough:
+                rogue.append((X, Y, Y, CURVE_HASH[Y]))  # an honest signature of the other key, under its own label
+        Z = names[(names.index(X) + 1) % 3]
+        rogue.append((X, X, Z, CURVE_HASH[X]))          # the right key, signature labelled with another curve
+        rogue.append((X, X, X, CURVE_HASH[Z]))          # the right key and label, another curve's hash
+        rogue.append((X, X, X, CURVE_HASH[X]))          # honest control
+        rogue.append((X, "ssh-ed25519", X, "-"))        # a key of another family
+    for i, (X, Y, label, hname) in enumerate(rogue):
+        for kex in (kexes if ctx.thorough else [kexes[i % len(kexes)]]):
+            e2e_rogue_key_type(ctx, kex, X, Y, label, hname)
     # the same on a re-exchange (host key unchanged)
     rfields = ["signature", "value", "replayed-signature"]
     if ctx.thorough:
@@ -901,7 +966,9 @@ def run(ctx):
                 "single-field MITM edits (host key flipped / swapped, f or Q_S, signature, client value, gex p, gex g, Q_S / Q_C "
                 "re-encoded as the same point in compressed form; each reply field EMPTIED or the packet cut off at it, "
                 "every kex family; octets PREPENDED (1, 8, 300; zero and non-zero) or appended inside the signature string "
-                "with real RSA host keys, judged by an independent `cryptography` verifier of the field as received; at engine level the toy verification runs through the REAL Transport._verify_key), the same edits (signature, value, replayed first signature) on a RE-exchange with the same host key. "
+                "with real RSA host keys, judged by an independent `cryptography` verifier of the field as received; a rogue server showing an ECDSA key "
+                "of another curve (or an Ed25519 key) than negotiated, signature labelled as negotiated, with either hash, "
+                "and the converse relabelings; at engine level the toy verification runs through the REAL Transport._verify_key), the same edits (signature, value, replayed first signature) on a RE-exchange with the same host key. "
                 "Transport.connect over all 64 option combinations x 2 server key types (hostkey absent / same / "
                 "other of the same type / other type; pkey, password, gss_auth, gss_kex) with recording auth_* "
                 "methods. distinct = distinct (engine, role, packets) / (kex, algorithm, edit); non-trivial = a complete "
